@@ -1,4 +1,46 @@
-(* placeholder so that the pipeline can be exercised; replaced by the real theorems *)
-From SV Require Import Names Rep.
-Theorem C06_placeholder : True. Proof. exact I. Qed.
-Print Assumptions C06_placeholder.
+(* C06 -- Betti numbers are the mod-2 homology ranks of the stored complex.
+   Theorem statements only; proofs are in Rank.v / Betti.v. *)
+From Coq Require Import ZArith List.
+From mathcomp Require Import all_ssreflect all_algebra.
+From SV Require Import Names Rep Complex Homology ListMat SnfCount Rank Betti Gen.
+Import ListNotations.
+
+(* the elimination of _reduceBoundaries, on every 0/1 matrix of every shape, ends in the partial
+   identity whose size is the GF(2) rank (Mathematical Components' \rank over 'F_2) of its input *)
+Theorem C06_reduce_rank :
+  forall (rb cb : nat) (L : Type) (M : bmat) (cls : list (list L)), wfm rb cb M ->
+  let D := fst (reduceB rb cb M cls) in
+  let r := \rank (mxf rb cb (entry M)) in
+  wfm rb cb D /\ forall i j, (i < rb)%coq_nat -> (j < cb)%coq_nat -> entry D i j = (i == j) && (i < r)%N.
+Proof. exact reduce_rank. Qed.
+Print Assumptions C06_reduce_rank.
+
+(* bettiNumbers()[k] = (n_k - rank d_k) - rank d_(k+1) = dim ker d_k - rank d_(k+1), for every
+   representation and every order k (n_k = number of columns of the order-k boundary operator) *)
+Theorem C06_betti :
+  forall (r : rep) (k : nat),
+  betti1 r k = Z.sub (Z.sub (Z.of_nat (ncols (boundaryOperator r k))) (Z.of_nat (rk (boundaryOperator r k))))
+                     (Z.of_nat (rk (boundaryOperator r (S k)))).
+Proof. exact betti_formula. Qed.
+Print Assumptions C06_betti.
+
+(* orders above the maximum report 0 *)
+Theorem C06_above_max : forall (r : rep) (k : nat), (r_nord r <= k)%coq_nat -> (0 < k)%coq_nat -> betti1 r k = Z0.
+Proof. exact betti_above_max. Qed.
+Print Assumptions C06_above_max.
+
+(* non-vacuity / field check by computation in the kernel: the model's Betti numbers of the
+   2-sphere, the 7-vertex torus and the 6-vertex projective plane (1,1,1 over GF(2), not 1,0,0) *)
+Definition build (faces : list (list nat)) : rep :=
+  fst (fold_left (fun acc bs => c_addSimplexWithBasis (fst acc) (List.map (fun n => NInt (Z.of_nat n)) bs) None None)
+                 faces (empty_rep 1, Ok (NInt Z0))).
+Definition bettis (r : rep) : list Z := List.map (fun k => betti1 r k) (List.seq 0 (r_nord r)).
+Example C06_sphere : bettis (build [[0;1;2];[0;1;3];[0;2;3];[1;2;3]]) = List.map Z.of_nat [1; 0; 1].
+Proof. vm_compute. reflexivity. Qed.
+Example C06_torus :
+  bettis (build [[0;1;3];[1;2;4];[2;3;5];[3;4;6];[0;4;5];[1;5;6];[0;2;6];[0;1;5];[1;2;6];[0;2;3];[1;3;4];[2;4;5];[3;5;6];[0;4;6]])
+  = List.map Z.of_nat [1; 2; 1].
+Proof. vm_compute. reflexivity. Qed.
+Example C06_projective_plane :
+  bettis (build [[0;1;2];[0;2;3];[0;3;4];[0;4;5];[0;1;5];[1;2;4];[2;3;5];[1;3;4];[2;4;5];[1;3;5]]) = List.map Z.of_nat [1; 1; 1].
+Proof. vm_compute. reflexivity. Qed.
